@@ -262,6 +262,7 @@ def c17_rf2(run):
     rf_alloc.rf152(run)
     rf_alloc.rf164(run)
     rf_proto.rf163(run)
+    rf_proto.rf165(run)
     run.min_instances('RF78b', 20)
 
 
@@ -480,6 +481,7 @@ def c03_rf11(run):
     rf_iface.rf89(run)
     rf_x86.rf104(run)
     rf_x86.rf124(run)
+    rf_proto.rf165(run)
     rf_iface.rf132(run)
     rf_iface.rf147(run)
     rf_iface.rf151(run)
